@@ -151,6 +151,13 @@ class VNamed(Vertex):
         return hash(self.name)
 
 
+class VCity(Vertex):
+    """A custom repr that is not ASCII (names, units, arrows) - what a vertex renders as when no rfunc is given."""
+
+    def __repr__(self):
+        return f"City(Z\u00fcrich \u2116{getattr(self, 'idx', '?')} \u2192 \U0001f5fa)"
+
+
 class DSub(DirectedEdge):
     pass
 
@@ -369,7 +376,7 @@ EDGE_CLASSES = {
 SPEC_ONLY_EDGE_CLASSES = {"DuckLink": DuckLink, "OtherLink~": OtherLinkNamesake}
 SPEC_ONLY_VERTEX_CLASSES = {"Vertex~": VertexNamesake, "VSub~": VSubNamesake, "UnhashableVertex": UnhashableVertex,
                             "RankedVertex": RankedVertex, "VDirLess": VDirLess, "VRecord": VRecord,
-                            "ClusterVertex": ClusterVertex, "VBag": VBag, "VNamed": VNamed}
+                            "ClusterVertex": ClusterVertex, "VBag": VBag, "VNamed": VNamed, "VCity": VCity}
 LINK_CLASSES = dict(EDGE_CLASSES)
 LINK_CLASSES["MultiLink"] = MultiLink
 ALL_CLASSES = {}
